@@ -12,8 +12,9 @@ LEVEL = "proof"
 HEX64 = re.compile(r"^[0-9a-f]{64}$")
 
 
-def tree_hashes(v):
-    """{tree hash hex: subtree} for every subtree of a CLVM value (iterative)."""
+def tree_hashes(v, counts=None):
+    """{tree hash hex: subtree} for every subtree of a CLVM value (iterative);
+    `counts` (a dict) receives the number of occurrences of every hash."""
     out = {}
     memo = {}
     stack = [(v, False)]
@@ -28,10 +29,14 @@ def tree_hashes(v):
                 h = hashlib.sha256(b"\x02" + memo[id(x[0])] + memo[id(x[1])]).digest()
                 memo[id(x)] = h
                 out.setdefault(h.hex(), x)
+                if counts is not None:
+                    counts[h.hex()] = counts.get(h.hex(), 0) + 1
         else:
             h = hashlib.sha256(b"\x01" + x).digest()
             memo[id(x)] = h
             out.setdefault(h.hex(), x)
+            if counts is not None:
+                counts[h.hex()] = counts.get(h.hex(), 0) + 1
     return out
 
 
@@ -94,15 +99,228 @@ def derived(p, fname):
     return ("list", forms, None)
 
 
+# ---- Layer-B tie of the symbol-table model (Lang/CoreSymbols.lean) ---------------------------------
+
+def parse_sexp(text):
+    """minimal reader for the hand-written witness programs: symbols, decimal integers, lists, dotted tails."""
+    toks = text.replace("(", " ( ").replace(")", " ) ").split()
+    pos = [0]
+
+    def rd():
+        t = toks[pos[0]]
+        pos[0] += 1
+        if t == "(":
+            items, tail = [], None
+            while toks[pos[0]] != ")":
+                if toks[pos[0]] == ".":
+                    pos[0] += 1
+                    tail = rd()
+                else:
+                    items.append(rd())
+            pos[0] += 1
+            return ("list", items, tail) if items else progen.NILT
+        if t.lstrip("-").isdigit():
+            return progen.I(int(t))
+        return progen.S(t)
+    return rd()
+
+
+def shape_of_pattern(pat):
+    """progen shape of an identifier-only parameter pattern (for argument generation)."""
+    if pat[0] == "sym":
+        return ("leaf", pat[1], "ilist" if pat[1].startswith("L") else "int")   # `L…` parameters are recursed on
+    if pat[0] == "nil":
+        return ("plist", [], None)
+    return ("plist", [shape_of_pattern(x) for x in pat[1]], shape_of_pattern(pat[2]) if pat[2] is not None else None)
+
+
+def program_of_text(text, dialect):
+    tree = parse_sexp(text)
+    fns = []
+    for f in tree[1]:
+        if f[0] == "list" and len(f[1]) == 4 and f[1][0] == ("sym", "defun"):
+            fns.append({"name": f[1][1][1], "inline": False, "shape": shape_of_pattern(f[1][2]), "pattern": f[1][2]})
+    return {"tree": tree, "text": progen.text(tree), "rich": progen.rich(tree), "dialect": dialect,
+            "nfns": len(fns), "fns": fns, "pattern": tree[1][1]}
+
+
+# hand-written core programs (cf. `C13.exProg`, `C13.dupProg` in Props/C13.lean): a recursive function, identical-code
+# functions in several positions of the function table, dead functions, eight functions
+FIXED_CORE = [
+    "(mod (X Y) (include {S}) (defun sum (L) (if L (+ (f L) (sum (r L))) 0)) (defun dbl ((A . B) C) (+ A B C)) "
+    "(defun dead (Q) (* Q 2)) (+ (sum X) (dbl (c X Y) Y)))",
+    "(mod (X) (include {S}) (defun F (A) (+ A 1)) (defun G (B) (+ B 1)) (+ (F X) (G X)))",
+    "(mod (X Y) (include {S}) (defun ff (A) (+ A 1)) (defun gg (B) (+ B 1)) (defun hh (C) (+ C 1)) (+ (gg X) (hh Y) (ff X)))",
+    "(mod (X) (include {S}) (defun hh (C) (+ C 1)) (defun mid (A B) (* A B)) (defun ff (A) (+ A 1)) (mid (ff X) (hh X)))",
+    "(mod (X) (include {S}) (defun ff (A) (+ A 1)) (defun dead1 (A) (+ A 1)) (ff X))",
+    "(mod X (include {S}) (defun f1 (A) (+ A 1)) (defun f2 (A) (+ A 2)) (defun f3 (A) (f1 (f2 A))) (defun f4 (A . B) (c B A)) "
+    "(defun f5 ((A B) C) (list A B C)) (defun f6 (L) (if L (f6 (r L)) 7)) (defun f7 (A) (f4 A A)) (defun f8 (A B C D E) (- A B C D E)) "
+    "(list (f3 X) (f5 (list 1 2) 3) (f6 X) (f7 X) (f8 1 2 3 4 5)))",
+    "(mod (X) (include {S}) (defun only (A) A) (only (only X)))",
+    "(mod (X) (include {S}) (defun unused (A) A) (+ X 1))",
+]
+
+
+def gen_core_many(rng, d, nf):
+    """a core program with `nf` non-inline functions, most of them live."""
+    g = progen.ProgGen(rng, d, compilers.CORE_FEATURES)
+    pat, types, argv, shape = g.pattern(rng.choice([1, 2, 3, 4]), prefix="P")
+    helpers = [g.make_recursive() if rng.random() < 0.3 else g.make_function(False) for _ in range(nf)]
+    sc = progen.Scope(types)
+    parts = [g.expr(sc, rng.choice(["int", "any", "ilist"]), rng.randint(1, 3))]
+    for f in g.fns:
+        if rng.random() < 0.7:
+            c = g.callform(sc, f, 1)
+            if c is not None:
+                parts.append(c)
+    body = parts[0] if len(parts) == 1 else progen.L(progen.S("list"), *parts)
+    if rng.random() < 0.3:
+        rng.shuffle(helpers)
+    forms = [progen.S("mod"), pat, progen.L(progen.S("include"), progen.S(progen.SIGILS[d]))] + helpers + [body]
+    tree = ("list", forms, None)
+    return {"tree": tree, "pattern": pat, "argv": argv, "types": types, "features": sorted(g.used_features), "dialect": d,
+            "nfns": len(g.fns), "shape": shape, "text": progen.text(tree), "rich": progen.rich(tree),
+            "fns": [{"name": f["name"], "inline": f["inline"], "shape": f["shape"], "pattern": f["pattern"]} for f in g.fns]}
+
+
+def with_duplicate(rng, p):
+    """`p` plus a renamed copy of one of its functions (identical code unless it is recursive),
+    both called from the main expression."""
+    forms = list(p["tree"][1])
+    idx = [i for i, f in enumerate(forms) if f[0] == "list" and len(f[1]) == 4 and f[1][0] == ("sym", "defun")]
+    if not idx:
+        return None
+    i = rng.choice(idx)
+    f = forms[i]
+    name, pat, body = f[1][1][1], f[1][2], f[1][3]
+    new = name + "_dup"
+    nargs = len(pat[1]) if pat[0] == "list" else 0
+    args = [progen.I(rng.randint(1, 9)) for _ in range(nargs)]
+    main = progen.L(progen.S("c"), progen.L(progen.S(name), *args),
+                    progen.L(progen.S("c"), progen.L(progen.S(new), *args), forms[-1]))
+    at = rng.choice([j for j in range(idx[0], len(forms))])
+    forms = forms[:at] + [progen.L(progen.S("defun"), progen.S(new), pat, body)] + forms[at:-1] + [main]
+    tree = ("list", forms, None)
+    q = dict(p)
+    orig = [fn for fn in p["fns"] if fn["name"] == name]
+    q.update({"tree": tree, "text": progen.text(tree), "rich": progen.rich(tree), "nfns": p["nfns"] + 1,
+              "fns": p["fns"] + [dict(orig[0], name=new)] if orig else p["fns"]})
+    return q
+
+
+def check_calls(chk, rng, d, entry, progs, outs):
+    """oracle on the REAL extraction chain: the program `compose_run_function` builds for a function key
+    (`cvh coresyms`: hex_to_modern_sexp, extract_program_and_env, path_to_function, rewrite_in_program), run by
+    clvmr on arguments, must return what the source-level call returns (Lang.evalSrc)."""
+    base_lines, src_lines, meta = [], [], []
+    for p, o in zip(progs, outs):
+        f = o.split()
+        if len(f) != 4 or f[0] != "S" or f[3] == "-":
+            continue
+        table = dict(kv.split(":", 1) for kv in f[2].split(","))
+        user = {fn["name"]: fn for fn in p["fns"]}
+        for call in f[3].split(","):
+            c = call.split(":")
+            name = bytes.fromhex(table.get(c[0], "")).decode("latin1")
+            if name not in user or user[name]["inline"]:
+                continue
+            if len(c) != 3 or not c[1].isdigit():
+                chk.fail("oracle", "syms:compose-run-function", {"dialect": d, "entry": entry, "program": p["text"], "function": name},
+                         f"no call program could be built for the entry of a function whose code is recorded: {call[:80]}")
+                continue
+            args = progen.shape_value(rng, user[name]["shape"])
+            base_lines.append(c[2] + " " + gen.hexv(args))
+            src_lines.append(progen.rich(derived(p, name)) + " " + gen.hexv(args))
+            meta.append((p, name, args, f[1]))
+    if not base_lines:
+        return
+    io = lib.run_impl("base", base_lines, timeout=120)
+    mo = lib.run_model("src", src_lines, timeout=300, per_job=20)
+    for (p, name, args, proghex), a, b in zip(meta, mo, io):
+        af = a.split()
+        chk.count(f"{d}:{entry}:compose-run:{af[1][0] if len(af) > 1 else '?'}/{b.split()[0]}")
+        if len(af) == 2 and af[1][0] == "V" and b != "ok " + af[1][1:]:
+            # known compiler defects (e.g. the literal 64 of non-strict dialects) keep their own signature
+            sig = compilers.classify("C13", p, entry, af[1], b, proghex).replace("value-mismatch", "compose-run-function")
+            chk.fail("oracle", sig, {"dialect": d, "entry": entry, "program": p["text"], "function": name,
+                                                            "args": gen.hexv(args)}, {"source_call": af[1], "composed_program": b})
+
+
+def core_tie(chk, rng, n):
+    """`Core.compileCoreSyms` with H = sha256 (modeld coresyms) must equal, on the modelled key
+    families, the table the real compiler returns (cvh coresyms) — and `Core.extractProgramAndEnv`,
+    `Lang.pathToFunction`, `Core.rewriteInProgram` must equal the real `compose_run_function`
+    pipeline for every function key.  Returns the programs whose outputs disagreed."""
+    for d in ("cl21", "strict21"):
+        progs = [program_of_text(t.replace("{S}", progen.SIGILS[d]), d) for t in FIXED_CORE]
+        nfixed = len(progs)
+        progs += compilers.gen_programs(rng, d, n, nargs=1, features=compilers.CORE_FEATURES)
+        progs += [gen_core_many(rng, d, rng.randint(0, 8)) for _ in range(n // 2)]
+        dups = [with_duplicate(rng, p) for p in progs[nfixed:] if p["nfns"] > 0 and rng.random() < 0.4]
+        progs += [q for q in dups if q is not None]
+        mo = lib.run_model("coresyms", [p["rich"] for p in progs], per_job=20)
+        bad = []
+        for entry in ("file:000", "text:O0"):
+            io = lib.run_impl("coresyms", [entry + " " + p["text"].encode().hex() for p in progs], per_job=4, timeout=60)
+            if entry == "file:000":
+                check_calls(chk, rng, d, entry, progs, io)
+            for k, (p, a, b) in enumerate(zip(progs, mo, io)):
+                af, bf = a.split(), b.split()
+                chk.count(f"coresyms:{d}:{entry}:{af[0] if af else 'none'}")
+                if not af or af[0] != "K":
+                    if k < nfixed:
+                        chk.fail("correspondence", "corr:core-symbols-fixed", {"dialect": d, "program": p["text"]},
+                                 f"hand-written core program is not accepted by the model: {a[:100]}")
+                    continue
+                chk.note_case(("coresyms", entry, p["text"]), p["nfns"] > 0)
+                if af[1] != "wf":
+                    chk.fail("correspondence", "corr:core-progWF", {"program": p["text"]},
+                             "generated core program does not satisfy the theorems' hypothesis progWF")
+                if not bf or bf[0] != "S":
+                    chk.count(f"coresyms:{d}:{entry}:impl-{bf[0] if bf else 'none'}")
+                    continue
+                nkeys = 0 if af[4] == "-" else len(af[4].split(","))
+                chk.count(f"coresyms:{d}:{entry}:function-keys={min(nkeys, 8)}")
+                if "_dup" in p["text"]:
+                    chk.count(f"coresyms:{d}:{entry}:with-duplicated-function")
+                if af[2:] == bf[1:]:
+                    chk.count(f"coresyms:{d}:{entry}:equal")
+                    chk.cov["traces_validated_against_impl"] = chk.cov.get("traces_validated_against_impl", 0) + 1
+                    continue
+                what = ["program", "table", "calls"]
+                diff = [w for w, x, y in zip(what, af[2:], bf[1:]) if x != y]
+                chk.count(f"coresyms:{d}:{entry}:DIFFER:{'+'.join(diff)}")
+                chk.fail("correspondence", "corr:core-symbols:" + "+".join(diff),
+                         {"dialect": d, "entry": entry, "program": p["text"]},
+                         {w: {"model": x[:600], "impl": y[:600]} for w, x, y in zip(what, af[2:], bf[1:]) if x != y})
+                bad.append((d, entry, p))
+        if mo:
+            chk.sample({"core_program": progs[0]["text"][:300], "model_coresyms": mo[0][:300]})
+        # the property-level oracle on hand-written and many-function programs (and on every disagreement)
+        orac = progs[:nfixed] + [p for p in progs[nfixed:] if p["nfns"] >= 4 or "_dup" in p["text"]][:max(20, n // 4)]
+        lines = ["file:000 " + p["text"].encode().hex() for p in orac]
+        check_entry(chk, rng, d, "file:000", orac, lib.run_impl("syms", lines, timeout=60, per_job=4))
+        for entry in ("file:000", "text:O0"):
+            again = [p for (d2, e2, p) in bad if d2 == d and e2 == entry and p not in orac]
+            if again:
+                lines = [entry + " " + p["text"].encode().hex() for p in again]
+                check_entry(chk, rng, d, entry, again, lib.run_impl("syms", lines, timeout=60, per_job=4))
+
+
 def run(chk):
     rng = chk.rng
     quick = chk.tier == "quick"
     lib.std_obligations(chk)
-    chk.cov["rule"] = ("generated programs with 0..4 functions x modern dialects x {unoptimised compile_file, CLI -O off/on}; "
+    chk.cov["rule"] = ("[oracle] generated programs with 0..4 functions x modern dialects x {unoptimised compile_file, CLI -O off/on}; "
                        "for every symbol entry whose key is the tree hash of a subtree of the emitted program: the value must be "
                        "a function of the source (or compiler-synthesised), the recorded argument list must be that function's, "
                        "and running the extracted code on (ENV . args) must equal the source-level call (Lang.evalSrc); "
-                       "unoptimised builds: every reachable non-inline function has an entry whose code occurs in the program")
+                       "unoptimised builds: every reachable non-inline function has an entry whose code occurs in the program; "
+                       "[tie] core-language programs (generator core stratum, 0..8-function programs, programs with a "
+                       "duplicated function, hand-written witnesses) x {cl21, strict-cl21} x {compile_file, CLI -O0}: "
+                       "model table (H = sha256), emitted program, path_to_function path and rewritten call program "
+                       "must equal the real ones on the key families <hash>, <hash>_arguments, <hash>_left_env, "
+                       "__chia__main_arguments")
     ok, out = lib.build_harness()
     if not ok:
         chk.fail("proof", "harness-build", {}, out[-1500:])
@@ -116,6 +334,17 @@ def run(chk):
             lines = [f"{entry} {p['text'].encode().hex()}" for p in progs]
             outs = lib.run_impl("syms", lines, timeout=60, per_job=4)
             check_entry(chk, rng, d, entry, progs, outs)
+    import random
+    core_tie(chk, random.Random(chk.seed ^ 0xC13), 80 if quick else 3000)
+    chk.cov["modelled_not_verified"] = [
+        "theorems cover the core language (mod, non-inline functions, operators, lazy if, calls) in non-optimising builds; "
+        "inline functions, let/assign, lambdas, constants, macros, optimising builds and the classic compiler are decided by "
+        "the hash/arguments/run oracle only",
+        "symbol-table key `source_file` (the caller's file name) is not modelled",
+        "extract_program_and_env / rewrite_in_program are modelled on the CLVM value (Val) of the program; they are tied "
+        "on compiled programs only (SExp nilp of a non-empty zero atom is outside the tie)",
+    ]
+    chk.assumptions.append("truth theorem assumes injectivity of the tree hash (satisfiable: C13.injective_tree_hash_exists)")
 
 
 def check_entry(chk, rng, d, entry, progs, outs):
@@ -129,7 +358,8 @@ def check_entry(chk, rng, d, entry, progs, outs):
         chk.count(f"{d}:{entry}:compiled")
         prog = gen.unhex(f[1])
         syms = json.loads(bytes.fromhex(f[2]).decode())
-        hashes = tree_hashes(prog)
+        occ = {}
+        hashes = tree_hashes(prog, occ)
         env = split_env(prog)
         user = {fn["name"]: fn for fn in p["fns"]}
         keyed = {k: v for k, v in syms.items() if HEX64.match(k)}
@@ -159,10 +389,16 @@ def check_entry(chk, rng, d, entry, progs, outs):
                 src_lines.append(progen.rich(derived(p, name)) + " " + gen.hexv(args))
                 meta.append((p, name, args, f[1]))
         if entry == "file:000":
-            for name in reachable_defuns(p):
-                if name not in present:
-                    chk.fail("oracle", "syms:missing-entry", {"dialect": d, "entry": entry, "program": p["text"], "function": name},
-                             "reachable non-inline function has no symbol entry whose code occurs in the program")
+            missing = [name for name in reachable_defuns(p) if name not in present]
+            # the table is keyed by code hash: functions compiled to IDENTICAL code share one key and the
+            # last one recorded owns it (finding C13-F1).  Implementation-only classification: the code
+            # of named entries occurs more often in the program than there are names for it.
+            spare = sum(occ.get(k, 1) - 1 for k in set(present.values()))
+            for name in missing:
+                sig = "syms:missing-entry:identical-code" if len(missing) <= spare else "syms:missing-entry"
+                chk.count(f"{d}:{entry}:{sig}")
+                chk.fail("oracle", sig, {"dialect": d, "entry": entry, "program": p["text"], "function": name},
+                         "reachable non-inline function has no symbol entry whose code occurs in the program")
     if base_lines:
         io = lib.run_impl("base", base_lines, timeout=120)
         mo = lib.run_model("src", src_lines, timeout=300, per_job=20)
